@@ -45,6 +45,43 @@ impl Mesh {
         Mesh { verts, tris }
     }
 
+    /// Octahedron inscribed in the box lo..hi, each face subdivided n x n (n >= 1).
+    pub fn octahedron(lo: [f32; 3], hi: [f32; 3], n: usize) -> Mesh {
+        let c = [(lo[0] + hi[0]) / 2.0, (lo[1] + hi[1]) / 2.0, (lo[2] + hi[2]) / 2.0];
+        let h = [(hi[0] - lo[0]) / 2.0, (hi[1] - lo[1]) / 2.0, (hi[2] - lo[2]) / 2.0];
+        let mut verts: Vec<[f32; 3]> = Vec::new();
+        let mut tris = Vec::new();
+        for sx in [1.0f32, -1.0] {
+            for sy in [1.0f32, -1.0] {
+                for sz in [1.0f32, -1.0] {
+                    let (a, b, d) = ([c[0] + sx * h[0], c[1], c[2]], [c[0], c[1] + sy * h[1], c[2]], [c[0], c[1], c[2] + sz * h[2]]);
+                    // barycentric grid on the face a-b-d
+                    let base = verts.len() as u32;
+                    let idx = |i: usize, j: usize| -> u32 { base + (i * (2 * n + 3 - i) / 2 + j) as u32 };
+                    for i in 0..=n {
+                        for j in 0..=(n - i) {
+                            let (u, v) = (i as f32 / n as f32, j as f32 / n as f32);
+                            let w = 1.0 - u - v;
+                            verts.push([a[0] * w + b[0] * u + d[0] * v, a[1] * w + b[1] * u + d[1] * v, a[2] * w + b[2] * u + d[2] * v]);
+                        }
+                    }
+                    let flip = sx * sy * sz < 0.0;
+                    for i in 0..n {
+                        for j in 0..(n - i) {
+                            let t = [idx(i, j), idx(i + 1, j), idx(i, j + 1)];
+                            tris.push(if flip { [t[0], t[2], t[1]] } else { t });
+                            if j + 1 < n - i {
+                                let t = [idx(i + 1, j), idx(i + 1, j + 1), idx(i, j + 1)];
+                                tris.push(if flip { [t[0], t[2], t[1]] } else { t });
+                            }
+                        }
+                    }
+                }
+            }
+        }
+        Mesh { verts, tris }
+    }
+
     pub fn to_parry(&self) -> TriMesh {
         TriMesh::new(
             self.verts.iter().map(|v| Point::new(v[0], v[1], v[2])).collect(),
